@@ -114,6 +114,9 @@ def objects(D, family):
                 for b in red:
                     for c in red:
                         yield {"kind": "query", "ast": [op, [a, b, c]]}
+    elif family == "d1_terms_bin":
+        for ast in c01.trees_depth1(terms, [], ternary=False):
+            yield {"kind": "query", "ast": ast}
     elif family == "d1_terms":
         for ast in c01.trees_depth1(terms, [], ternary=True):
             yield {"kind": "query", "ast": ast}
@@ -168,6 +171,46 @@ def culprit_spec(spec, s, maxid, depth, model):
     return spec
 
 
+def _reads_do_not_matter(runner):
+    """In every explored state: a quality skip applied to the live matcher
+    (whose id()/score() have just been read) must leave it exactly where the
+    same calls leave a matcher that was never read - observing a matcher must
+    not change where later calls take it (cached ids have to be dropped by
+    every call that moves a sub-matcher)."""
+    m = runner.m
+    if not m.is_active():
+        return
+    try:
+        if not m.supports_block_quality():
+            return
+    except Exception:
+        return
+    rest = [e.get("score") for e in runner.L[runner.pos:] if isinstance(e.get("score"), float)]
+    if not rest:
+        return
+    for q in sorted(set([rest[0], max(rest), min(rest)])):
+        if q <= 0:
+            continue
+        warm = runner.blind(runner.prog)
+        # warm its caches the way an observer would
+        if warm.is_active():
+            warm.id()
+            warm.score()
+        cold = runner.blind(runner.prog)
+        warm.skip_to_quality(q)
+        cold.skip_to_quality(q)
+        a = (warm.is_active(), warm.id() if warm.is_active() else None)
+        b = (cold.is_active(), cold.id() if cold.is_active() else None)
+        if a != b:
+            raise mbfs.Violation("observed-differs", "after program %r + skip_to_quality(%r): a matcher whose id()/"
+                                 "score() were read first is at %r, an unobserved one at %r" % (runner.prog, q, a, b))
+        if a[0]:
+            sa, sb = warm.score(), cold.score()
+            if not mbfs.close(sa, sb):
+                raise mbfs.Violation("observed-differs:score", "after program %r + skip_to_quality(%r) at id %r: "
+                                     "score %r when observed before, %r otherwise" % (runner.prog, q, a[1], sa, sb))
+
+
 def explore_one(spec, s, maxid, depth, model, km=None):
     scored = spec.get("context", "scored") == "scored"
     reader = mbfs.Reader(scored=scored)
@@ -178,7 +221,8 @@ def explore_one(spec, s, maxid, depth, model, km=None):
         return {"states": 0, "transitions": 0, "executions": 0, "depth": 0,
                 "violation": ("exc:%s@%s" % (type(e).__name__, mbfs.whoosh_where(e)),
                               "building the matcher raised %r" % (e,), [])}
-    r = mbfs.bfs(make, reader, maxid, depth)
+    r = mbfs.bfs(make, reader, maxid, depth,
+                 extra_state_check=_reads_do_not_matter if (scored and spec.get("observe")) else None)
     if r["violation"] is None and spec["kind"] == "query" and km is not None:
         # the list itself must be the reference result
         ref = qast.ref_eval(spec["ast"], model)
@@ -202,6 +246,8 @@ def task(t):
             for i, spec in enumerate(objects(D, family)):
                 if i % nsl != sl:
                     continue
+                if layout.get("observe"):
+                    spec = dict(spec, observe=True)
                 r = explore_one(spec, s, maxid, depth, model, km)
                 acc.count("objects")
                 acc.count("states", r["states"])
@@ -245,11 +291,15 @@ def run(ctx):
     M1 = {"segs": [3], "deleted": [], "blocklimit": 1}
     M2 = {"segs": [2, 1], "deleted": [1], "blocklimit": 2}
     N1 = {"segs": [2], "deleted": [], "blocklimit": 1}
+    deep = []
     if ctx.tier == "quick":
-        depth = 4
+        depth = 3
         plan = [(4, L1, "d1_mix", 32), (4, L2, "d1_tern", 16), (4, L3, "d1_tern", 16),
                 (2, N1, "d2_terms", 16), (4, L2, "direct", 16), (4, L3, "direct", 16),
                 (3, M2, "bool", 4)]
+        # the same protocol to depth 5 on every binary/unary tree over U(3)
+        deep = [(3, dict(M1, observe=True), "d1_terms_bin", 8, 5), (3, dict(M2, observe=True), "d1_terms_bin", 8, 5),
+                (4, dict(L2, observe=True), "d1_terms_bin", 16, 2)]
     else:
         depth = 6
         plan = [(4, L1, "d1", 64), (4, L2, "d1_mix", 32), (4, L3, "d1_mix", 32), (4, L4, "d1_tern", 32),
@@ -259,12 +309,17 @@ def run(ctx):
     for D, lay, fam, nsl in plan:
         for sl in range(nsl):
             tasks.append((D, seed, lay, fam, nsl, sl, depth))
+    for D, lay, fam, nsl, dp in deep:
+        for sl in range(nsl):
+            tasks.append((D, seed, lay, fam, nsl, sl, dp))
+    ctx.extra["deep_plan"] = [[p[0], p[1], p[2], p[4]] for p in deep]
     ctx.extra["bfs_depth"] = depth
     ctx.extra["plan"] = [[p[0], p[1], p[2]] for p in plan]
     ctx.rule = ("for every matcher object (query trees of the stated families over U(D) on the stated "
                 "index variants, scored and boolean contexts, directly constructed array/preloaded/"
                 "filter/inverse/wrapping/list matchers, span matchers): BFS over call programs "
-                "{next, skip_to(0..D+1), skip_to_quality(0), replace(), copy, copy+advance, reset} up to "
+                "{next, skip_to(0..D+1), skip_to_quality(0), skip_to_quality(q) for q in {current score, best "
+                "remaining score}, replace(), copy, copy+advance, reset} up to "
                 "the depth, states merged by digest of the real object graph + model position; states/"
                 "transitions are summed over objects; an object counts as non-trivial when it has more "
                 "than 2 distinct states")
